@@ -52,6 +52,10 @@ var c03Atoms = []string{
 	"\r", "\"", "\\",
 }
 
+// c03ParseTokens: the alphabet of part (d).
+var c03ParseTokens = []string{"for", "(", ")", "print", "printf", "delete", "x", "in", "a", ";", "{", "}", "getline", ",", "=", "1", "\"s\"", "/r/", "$", "if", "else", "while", "do",
+	"function", "return", "[", "]", "?", ":", "<", "|", "\n", "next", "exit", "++", "-"}
+
 var c03SubstBytes = []byte{'\n', '\r', '\\', '"', '/', '(', 'e', 0x00, 0xff}
 
 // ---------------------------------------------------------------- reference lexer
@@ -1109,6 +1113,53 @@ func c03Run(c *core.Ctx) {
 		}
 	}
 
+	// (d) token sequences: the parser's own error paths. Every sequence of <= 4
+	// tokens, and every sequence of 5 [thorough: 6] tokens that starts with a
+	// statement keyword, over a parser-oriented token alphabet, as the body of
+	// BEGIN { ... } and (<= 3 tokens) at the top level.
+	if strings.Contains(parts, "a") {
+		toks := c03ParseTokens
+		starters := map[string]bool{"for": true, "if": true, "while": true, "do": true, "print": true, "printf": true, "delete": true, "getline": true, "return": true, "else": true}
+		maxLen, maxFree := 5, 4
+		if thorough {
+			maxLen = 6
+		}
+		for n := 1; n <= maxLen && !c.Expired(); n++ {
+			idx := make([]int, n)
+			for {
+				if n <= maxFree || starters[toks[idx[0]]] {
+					if c.Mine() {
+						if c.Expired() {
+							break
+						}
+						buf = append(buf[:0], "BEGIN { "...)
+						for _, i := range idx {
+							buf = append(buf, toks[i]...)
+							buf = append(buf, ' ')
+						}
+						buf = append(buf, '}')
+						r.check(buf, "tokens", nil)
+						if n <= 3 {
+							r.check(buf[8:len(buf)-1], "tokens", nil)
+						}
+					}
+				}
+				k := n - 1
+				for k >= 0 {
+					idx[k]++
+					if idx[k] < len(toks) {
+						break
+					}
+					idx[k] = 0
+					k--
+				}
+				if k < 0 {
+					break
+				}
+			}
+		}
+	}
+
 	// (b) corpus: prefixes, deletions, substitutions
 	maxFile, maxLit := 2048, 300
 	if thorough {
@@ -1193,7 +1244,8 @@ func init() {
 		Level: "model_checking",
 		Rule: "bounded-exhaustive enumeration of source texts: (a) every sequence of <=4 (quick) / <=5 (thorough) atoms over a 41-atom alphabet covering every lexer branch; " +
 			"(b) every prefix, every 1-byte deletion and every 1-byte substitution from 9 bytes at every offset of every corpus source (testdata programs up to 2 KiB quick / 8 KiB thorough and every string literal of the repo's test files); " +
-			"(c) 50 nesting towers / flat repetitions at k = 1..max with the text reaching 32 KiB, closed / unclosed / truncated. " +
+			"(c) 50 nesting towers / flat repetitions at k = 1..max with the text reaching 32 KiB, closed / unclosed / truncated; " +
+			"(d) token sequences over a 36-token parser-oriented alphabet (statement keywords, brackets, getline, in, regex, ?:, <, |, newline ...): every sequence of <=4 tokens and every sequence of 5 (thorough 6) tokens starting with a statement keyword, as the body of BEGIN { } and (<=3 tokens) at top level. " +
 			"A state is one source text; a transition is one lexer API call (Scan, or ScanRegex after a division token — all 2^k choices are explored when the text has <=10 slashes, else 3 fixed policies) compared with the reference lexer; " +
 			"evaluations are ParseProgram calls plus runs of the real binary; a distinct outcome is accepted / (error message kind, line class, column class) / panic",
 		Assumptions: []string{
